@@ -17,3 +17,22 @@ PROPS["C07"] = dict(
     outside_claim=["n > 9", "map iteration order inside xyScalar/lagrangeBasis is whatever the run produces (results are order-free terms decided semantically)", "share indices >= n are not rejected by share/poly.go and are not part of the claim"],
     assumptions=[GGM, TWIN],
 )
+
+def e2prop(pid, title, cmd, what, functions, bounds, outside, extra_parts=None, overlay=None):
+    part = dict(engine="e2", cmd=cmd)
+    if overlay:
+        part["overlay"] = overlay
+    PROPS[pid] = dict(
+        title=title,
+        parts=[part] + (extra_parts or []),
+        technique="proxy-object symbolic execution of the real kyber protocol code over a symbolic group (E2 symgroup); every Equal/token decision and every assertion is a z3 QF_NRA query over all secrets, coins and oracle outputs; failures are replayed on the real suites",
+        level_text="bounded symbolic checking: " + what + " Structure (sizes, subsets, orders, fault menu) is enumerated within the stated bounds; for each enumerated case the SMT solver decides the claims for ALL values of the symbolic secrets/coins/challenges (completeness claims are validity queries; rejection claims are 'generically rejected', and 'never accepted under stated non-degeneracy hypotheses' where marked).",
+        level_note="trusted: the concrete group arithmetic (C01-C05), hash/XOF/AEAD internals (run concretely on token bytes), z3; " + GGM + "; " + TWIN,
+        functions=functions, bounds=bounds, outside_claim=outside, assumptions=[GGM, TWIN],
+    )
+
+e2prop("C13", "PVSS and DLEQ", "c13",
+       "the real share/pvss and proof/dleq run on symbolic secrets, keys, base points and coins: honest encrypted/decrypted shares verify, any >= t decrypted shares (all subsets, several orders) recover secret*G, fewer are refused; each single-field mutation of an encrypted or decrypted share, of the commitments, keys or base point is excluded from the batch results; a DLEQ proof for x is never accepted for x' != x.",
+       ["pvss.EncShares", "pvss.computeCommitments", "pvss.computeGlobalChallenge", "pvss.VerifyEncShare", "pvss.VerifyEncShareBatch", "pvss.DecShare", "pvss.DecShareBatch", "pvss.VerifyDecShare", "pvss.VerifyDecShareBatch", "pvss.RecoverSecret", "dleq.NewDLEQProof", "dleq.NewDLEQProofBatch", "dleq.Proof.Verify", "share.RecoverCommit"],
+       ["quick: 2<=n<=5, 1<=t<=n, all subsets of decrypted shares of size >= t-1 with identity/reverse/seeded orders; mutations at (n,t) in {(3,2),(4,3)} for every trustee j and 12 encrypted-share / 9 decrypted-share mutation kinds; DLEQ: 9 mutations, batches of 1..3", "thorough: n<=8, mutations also at (5,3),(6,4),(4,4), second solver"],
+       ["collision resistance of the hash (random-oracle idealisation)", "n > 8", "the share index S.I is not covered by the proofs (sH is supplied by the caller): outcome recorded, not asserted"])
